@@ -14,6 +14,18 @@ CLAIMED = {
  "C05": ("B", "deterministic simulation of the real readyQueue with worker/producer threads under a seeded scheduler; conservation, idle-point and exit oracles",
          "Seeded search over interleavings of pushes, local re-pushes, bursts that overflow the local ring, steals, parks and close on 2-3 workers, with stock and tiny ring capacities; conservation (each pushed item taken exactly once), idle-point invariant (no parked worker while the global ring holds work), bounded liveness on the fake clock and exit-after-close are checked. Sampling, not proof.",
          "Workers are harness threads running the real take loop with dummy schedulables; the dispatcher's worker goroutines themselves are exercised by the single-node scenarios."),
+ "C01": ("C", "deterministic simulation of a real actor system under a seeded scheduler; online handler-overlap detector in scripted probe actors",
+         "Seeded search over interleavings of 2-4 concurrent senders, dispatcher workers (2-4), throughput budgets 1-32, supervisor restarts/resumes, explicit Restart/Reinstate and millisecond passivation on every mailbox type; each probe flags on the spot a second handler invocation entering while one is in progress. Sampling, not proof.",
+         "Grains and reentrant replies are covered by the C31/C16 scenarios' own overlap detectors; BoundedMailbox is left out of runs with stops (see DESIGN.md observations)."),
+ "C02": ("C", "deterministic simulation of a real actor system; exactly-once and bounded-liveness oracles over the recorded event log",
+         "Seeded search over interleavings of concurrent Tell/BatchTell producers with the consumer turn and the drain/idle transition on every mailbox type; accepted-message multiset must equal the handled multiset, nothing handled twice, and everything accepted must be handled within 5 s of simulated time after traffic stops (a run that stops making progress is a violation). Sampling, not proof.",
+         "Strict configuration only (actors stay alive, no restarts); stash/unstash multiplicity is checked by C13."),
+ "C03": ("C", "deterministic simulation of a real actor system; per-sender order oracle over the event log",
+         "Seeded search over interleavings of 2-4 sender goroutines using Tell and BatchTell to actors with every FIFO mailbox type; for each (sender goroutine, receiver incarnation) the handled sequence numbers must be strictly increasing. Sampling, not proof.",
+         "Stash/unstash relative order is checked by the C13 scenario."),
+ "C06": ("C", "deterministic simulation of a real actor system; lifecycle grammar oracle per incarnation plus online PostStop/Receive overlap detector",
+         "Seeded search over interleavings of message traffic (handlers that take simulated time) with nine stop paths issued from external goroutines and from other actors' turns; per incarnation PreStart must finish before the first Receive, PostStop runs at most once, no Receive starts after PostStop started, and PostStop never overlaps Receive on another goroutine. Known deviations of the external stop paths are listed in known_findings.jsonl with one signature per path and class. Sampling, not proof.",
+         "BoundedMailbox is left out (see DESIGN.md observations)."),
 }
 NA = {
  "C22": "pure function of a call count under a mutex: no schedule, clock, I/O or fault can change the answer, so a simulator has nothing to search",
@@ -62,6 +74,7 @@ m = {
  "engines": [
    {"name": "A", "path": "scen/c04_mailbox.go", "serves_properties": ["C04"], "kind_free_text": "mailbox micro-simulation: harness producer/consumer threads on the real Mailbox implementations under the simrt scheduler inside a synctest bubble"},
    {"name": "B", "path": "harness/actor/zz_verif_rq.go", "serves_properties": ["C05"], "kind_free_text": "ready-queue micro-simulation compiled into package actor through the build overlay"},
+   {"name": "C", "path": "scen/sys.go", "serves_properties": ["C01", "C02", "C03", "C06"], "kind_free_text": "single-node simulation: a real actor system (dispatcher, mailboxes, supervision, passivation, scheduler) with scripted probe actors, every goroutine under the simrt scheduler, fake clock"},
  ],
  "checks": checks,
  "not_applicable": na,
